@@ -68,3 +68,28 @@ def gen_c04(tier):
         _dec_module("g_c04_v3", "C04: strict decoder acceptance = MQTT 3.1/3.1.1 grammar, per shape", SH.v3_shapes(tier), "C04").write(srcdir)
         _dec_module("g_c04_v5", "C04: strict decoder acceptance = MQTT 5.0 grammar, per shape", SH.v5_shapes(tier), "C04").write(srcdir)
     return g
+
+
+def encodable(shapes_list):
+    return [sh for sh in shapes_list if sh.ctor is not None and not sh.malformed_by_shape and sh.canonical]
+
+
+def _enc_module(name, doc, shapes_list, prop, **kw):
+    m = G.Module(name, doc)
+    seen_types = set()
+    for sh in encodable(shapes_list):
+        fn, code, w, unwind, meta = G.emit_enc(sh, prop=prop, level="body", **kw)
+        m.add(fn, code, w, unwind, stubs=G.STUBS_ENCODE, meta=meta)
+        # packet level (fixed header + glue): the first (smallest) shape of each packet type
+        if G.body_ctor(sh) is not None and (sh.fam, sh.typ) not in seen_types and sh.total_len <= 24 and (sh.fam, sh.typ) not in (("v5", "Connect"), ("v3", "Connect"), ("v5", "Publish"), ("v5", "Connack")):
+            seen_types.add((sh.fam, sh.typ))
+            fn, code, w, unwind, meta = G.emit_enc(sh, prop=prop, level="packet", **kw)
+            m.add(fn, code, w, unwind, stubs=G.STUBS_ENCODE, meta=meta)
+    return m
+
+
+def gen_c10(tier):
+    def g(srcdir):
+        _enc_module("g_c10_v3", "C10: encoder output = spec wire image (v3)", SH.v3_shapes(tier), "C10", want_len=False).write(srcdir)
+        _enc_module("g_c10_v5", "C10: encoder output = spec wire image (v5)", SH.v5_shapes(tier), "C10", want_len=False).write(srcdir)
+    return g
